@@ -35,6 +35,9 @@ SCENARIOS = {
     "cold-equal-results-3-nocache": ([101, 102, 102], [], False, 0),
     # the in-memory storage backend (no files, no cache): its tables are shared by the threads
     "cold-diff-3-memstore": ([1, 2, 2], [], False, 0, "memory"),
+    # automatically versioned functions with nested calls (each nested call is checked against the caller's declared
+    # dependencies), right after another memento function was defined in the process
+    "cold-diff-nested-auto": ([1, 2], [], False, 0, "auto-nested"),
 }
 
 
@@ -47,6 +50,7 @@ class Run:
         specs, pre, warm_cache, budget = SCENARIOS[name][:4]
         kind = (SCENARIOS[name] + ("filesystem",))[4]
         self.specs = [spec(i) for i in specs]
+        self.kind = kind
         self.root = os.path.join(scratch, "c09")
         shutil.rmtree(self.root, ignore_errors=True)
         data = os.path.join(self.root, "data")
@@ -68,6 +72,11 @@ class Run:
                 fnmod.n0(spec(i))
             del self.events[:]
         self.expected_execs = {i: (0 if i in pre else 1) for i in set(specs)}
+        if kind == "auto-nested":
+            from . import autofn
+            self.autofn = autofn
+            autofn.define_another(scratch)
+            self.expected_execs = {k * 1000 + i: 1 for i in set(specs) for k in range(4)}
         codes = set()
         if line_mode == "mutex":
             # every source line of the function that hands out the per-call lock
@@ -77,6 +86,8 @@ class Run:
             # every source line of the function that publishes a link file (two calls with equal result bytes publish the same one)
             from twosigma.memento.storage_filesystem import _FilesystemDataSource
             codes.add(_FilesystemDataSource._write_non_versioned_link.__code__)
+        elif line_mode == "deps":
+            call_files = ("memento/memento.py",)      # every function call inside memento.py is a scheduling point
         elif line_mode == "memstore":
             # every source line of the in-memory backend's own methods
             from twosigma.memento.storage_memory import MemoryStorageBackend
@@ -96,7 +107,7 @@ class Run:
         sched = self.sched
         self.cache = getattr(self.backend, "_memory_cache", None)
         for attr, label in (("_memory_cache", "cache"), ("_metadata_source", "meta"), ("_data_source", "data")):
-            if line_mode in ("mutex", "links", "memstore"):
+            if line_mode in ("mutex", "links", "memstore", "deps"):
                 break
             if getattr(self.backend, attr, None) is not None:
                 setattr(self.backend, attr, PointProxy(getattr(self.backend, attr), label, sched))
@@ -110,6 +121,8 @@ class Run:
 
     def go(self, chooser):
         fns = [(lambda s=s: self.fnmod.n0(s)) for s in self.specs]
+        if self.kind == "auto-nested":
+            fns = [(lambda s=s: self.autofn.a_outer(s["id"])) for s in self.specs]
         deadlock = self.sched.run(fns, chooser)
         builtins._vt = self.events.append
         return deadlock
@@ -120,7 +133,7 @@ class Run:
         if deadlock:
             bad.append(("deadlock", "no thread could make progress"))
         for w, s in zip(self.sched.workers, self.specs):
-            want = fnmod.make_value(s["ret"])
+            want = fnmod.make_value(s["ret"]) if self.kind != "auto-nested" else 3 * s["id"] + 6
             if w.exc is not None:
                 bad.append(("exception-escaped", "thread %d: %s: %s" % (w.idx, type(w.exc).__name__, str(w.exc)[:120])))
             elif not w.done:
@@ -225,22 +238,22 @@ def run(tier, seed):
             plan = [("cold-same", 2, 70, 0, False), ("warmstore-coldcache-same", 2, 50, 0, False), ("cold-diff-tightcache", 1, 30, 0, False),
                     ("warmcache-same", 1, 10, 0, False), ("warmstore-coldcache-same", 0, 0, 25, True), ("cold-diff-tightcache", 0, 0, 15, True),
                     ("cold-same", 2, 320, 0, "mutex"), ("cold-equal-results-3-nocache", 2, 250, 0, "links"),
-                    ("cold-diff-3-memstore", 1, 400, 0, "memstore")]
+                    ("cold-diff-3-memstore", 1, 400, 0, "memstore"), ("cold-diff-nested-auto", 1, 300, 0, "deps")]
             if not gate["ok"]:      # search mode: an obligation is broken, look harder for a failing schedule
                 plan = [(n, b + 1, r * 4, rr * 4, lm) for (n, b, r, rr, lm) in plan]
         else:
-            plan = [(n, 3, 400, 0, False) for n in SCENARIOS] + [(n, 0, 0, 150, True) for n in SCENARIOS] + [(n, 2, 150, 0, "mutex") for n in ("cold-same", "cold-same-3", "mixed-3")] + [("cold-equal-results-3-nocache", 3, 1500, 0, "links"), ("cold-diff-3-memstore", 2, 3000, 0, "memstore")]
+            plan = [(n, 3, 400, 0, False) for n in SCENARIOS] + [(n, 0, 0, 150, True) for n in SCENARIOS] + [(n, 2, 150, 0, "mutex") for n in ("cold-same", "cold-same-3", "mixed-3")] + [("cold-equal-results-3-nocache", 3, 1500, 0, "links"), ("cold-diff-3-memstore", 2, 3000, 0, "memstore"), ("cold-diff-nested-auto", 2, 3000, 0, "deps")]
         total, distinct = 0, set()
         cover = {}
         for name, bound, max_runs, random_runs, line_mode in plan:
             results, left = explore(lambda: Run(m, scratch, name, line_mode), bound, max_runs, rng, random_runs)
-            cover["%s/%s" % (name, ({"mutex": "lock-table-lines", "links": "link-writer-lines", "memstore": "memory-backend-lines"}.get(line_mode, "line")) if line_mode else "call")] = {"schedules": len(results), "unexplored_prefixes_left": left,
+            cover["%s/%s" % (name, ({"mutex": "lock-table-lines", "links": "link-writer-lines", "memstore": "memory-backend-lines", "deps": "calls-in-memento.py"}.get(line_mode, "line")) if line_mode else "call")] = {"schedules": len(results), "unexplored_prefixes_left": left,
                                                                        "preemption_bound": bound}
             for trace, verdicts, choices in results:
                 total += 1
                 distinct.add((name, line_mode, tuple(trace)))
                 for sig, what in verdicts:
-                    rep.violation("C09:%s:%s" % (sig, name), "scenario %s, %s granularity: %s" % (name, ({"mutex": "lock-table lines", "links": "link-writer lines", "memstore": "in-memory backend lines"}.get(line_mode, "line")) if line_mode else "call", what),
+                    rep.violation("C09:%s:%s" % (sig, name), "scenario %s, %s granularity: %s" % (name, ({"mutex": "lock-table lines", "links": "link-writer lines", "memstore": "in-memory backend lines", "deps": "function calls inside memento.py"}.get(line_mode, "line")) if line_mode else "call", what),
                                   {"scenario": name, "granularity": "line" if line_mode else "call", "choices": choices,
                                    "schedule(thread, point)": trace[:200]})
                 if len(rep.samples) < 3 and len(trace) > 8:
